@@ -8,6 +8,7 @@ mod pure;
 mod smtp;
 mod pool;
 mod mime;
+mod transports;
 mod oracles;
 
 pub fn hex(b: &[u8]) -> String {
